@@ -5,8 +5,9 @@ EXTENDS Lifecycle
 CONSTANTS MaxLen, NeedClose, OpSet
 
 OpCode(o) == CASE o = "run" -> 1 [] o = "minit" -> 2 [] o = "rac" -> 3 [] o = "close" -> 4 [] o = "wait" -> 5
+                 [] o = "runr" -> 6 [] o = "minitr" -> 7 [] o = "racx" -> 8 [] o = "minitc" -> 9
 RECURSIVE Code(_)
-Code(s) == IF s = <<>> THEN 0 ELSE OpCode(Head(s)) + 6 * Code(Tail(s))
+Code(s) == IF s = <<>> THEN 0 ELSE OpCode(Head(s)) + 10 * Code(Tail(s))
 Scripts == UNION { [1..n -> OpSet] : n \in 1..MaxLen }
 Order == CHOOSE f \in [Procs -> 1..Cardinality(Procs)] : \A p, q \in Procs : p # q => f[p] # f[q]
 Sorted(a) == \A p, q \in Procs : Order[p] < Order[q] => Code(a[p]) <= Code(a[q])
